@@ -3,6 +3,7 @@ Theorems: Properties/C17.v. Correspondence: model fold (and the model's Python s
 LiteralEvaluator.exec / CPython eval on generated literal expressions placed as enum member values.
 Oracle: exec(e) == eval(e) with equal type, or an application error."""
 from lib import *
+import re
 import ast
 
 IMPORTS = 'From Tranp Require Import Model.Fold.\nFrom Coq Require Import PrimFloat.'
@@ -339,6 +340,7 @@ def run(ctx: Ctx) -> None:
                          prelude='Definition cases : list (expr * outcome * presult) := [\n%s\n].' % ';\n'.join(cases[:400]))
     ctx.extra['model_decided_of_first_400'] = outs[0] if outs else err[-300:]
     enum_references(ctx)
+    enum_value_uses(ctx)
 
 def shrink_sig(t, r, py):
     """a coarse, stable signature of a wrong value: which construct kinds appear in the smallest failing sub-expression"""
@@ -431,6 +433,52 @@ def enum_references(ctx: Ctx) -> None:
                     ctx.violation('enum-reference', 'an enum member that refers to other members folds to %r, CPython gives %r' % (got, want),
                                   dict(input=dict(expression=src, member=en + '.' + mn), oracle_result=repr(want), impl_result=repr(got)))
                     break
+
+def enum_value_uses(ctx: Ctx) -> None:
+    """`E.M.value` in a function body is emitted as the literal of the folded member value: the text between the quotes of
+    the C++ string literal (the integer, for int members) must be the value CPython gives"""
+    shim()
+    import tsession
+    rnd = ctx.rnd
+    spool = ['plain', '', 'a b', '"x"', "'y'", "a'b", 'q"', "'", 'x,y', '""', "''k", '#h', '{0}', '%d']
+    for k in range(ctx.n(6, 300)):
+        svals = rnd.sample(spool, rnd.randint(2, 5))
+        lines = ['from enum import Enum', '', 'class S(Enum):'] + ['\tM%d = %r' % (i, v) for i, v in enumerate(svals)] + ['', 'class N(Enum):']
+        nexprs = []
+        for i in range(rnd.randint(2, 4)):
+            e = str(rnd.randint(0, 20)) if not nexprs or rnd.random() < .4 else '%s %s %d' % ('P%d' % rnd.randrange(len(nexprs)), rnd.choice(['+', '*', '-']), rnd.randint(1, 5))
+            nexprs.append(e)
+            lines.append('\tP%d = %s' % (i, e))
+        lines.append('')
+        for i in range(len(svals)):
+            lines += ['def s%d() -> str:' % i, '\treturn S.M%d.value' % i, '']
+        for i in range(len(nexprs)):
+            lines += ['def n%d() -> int:' % i, '\treturn N.P%d.value' % i, '']
+        src = '\n'.join(lines)
+        env = {}
+        exec(src, env)
+        ctx.case(src, any(c in v for v in svals for c in '\'"'))
+        try:
+            cpp = tsession.transpile_one(src)
+        except Exception as e:
+            ctx.violation('enum-module-rejected', 'a module that uses enum member values is rejected', dict(input=dict(expression=src), impl_result=repr(e)[:300]))
+            continue
+        for i, v in enumerate(svals):
+            m = re.search(r'std::string s%d\(\) \{\n\treturn (.*);\n\}' % i, cpp)
+            ctx.evaluations += 1
+            if not m or m.group(1) != '"%s"' % v:
+                ctx.violation('enum-value-literal', 'S.M%d.value (%r) is emitted as %s' % (i, v, m.group(1) if m else None),
+                              dict(input=dict(expression=src, member='S.M%d' % i), oracle_result='"%s"' % v, impl_result=m.group(1) if m else cpp[-300:]))
+                break
+        for i in range(len(nexprs)):
+            m = re.search(r'int n%d\(\) \{\n\treturn (-?\d+);\n\}' % i, cpp)
+            want = env['N']['P%d' % i].value
+            ctx.evaluations += 1
+            if not m or int(m.group(1)) != want:
+                ctx.violation('enum-value-literal', 'N.P%d.value (%r) is emitted as %s' % (i, want, m.group(1) if m else None),
+                              dict(input=dict(expression=src, member='N.P%d' % i), oracle_result=repr(want), impl_result=m.group(1) if m else cpp[-300:]))
+                break
+
 
 def replay(ctx: Ctx, data: dict) -> int:
     import evalrun
